@@ -128,6 +128,7 @@ struct Exec {
     std::vector<std::pair<std::string, std::string>>* fails;
     std::string* outcome;
     std::vector<uint64_t>* state_hashes;
+    std::vector<uint64_t>* trace_log;   // per step (tid, state, obj, timeout, alternatives): to name the first differing step of a diverging replay
 } E;
 
 __thread Th* cur = nullptr;
@@ -268,7 +269,12 @@ void reschedule(Th* self) {
         int c = n == 1 ? 0 : take_choice(n, costmask);
         Alt a = alts[c];
         Th* t = &E.th[a.tid];
-        E.trace_hash = mix(E.trace_hash, (uint64_t(a.tid) << 32) ^ (uint64_t(t->st) << 24) ^ (uint64_t(uint32_t(t->obj)) << 4) ^ uint64_t(a.timeout) ^ (uint64_t(n) << 56));
+        // The trace identifies a step by (thread, kind of pending operation, timeout?, number of alternatives). The ordinal of the
+        // synchronisation object is NOT part of it: ordinals are assigned per address, and when the heap hands the address of a dead
+        // object (a future's shared state, a once_flag) to a new one the labels differ between two runs of the same schedule although
+        // the behaviour is identical (observed: "T3 at-point obj=16" vs "obj=11" with equal alternatives and outcome).
+        E.trace_hash = mix(E.trace_hash, (uint64_t(a.tid) << 32) ^ (uint64_t(t->st) << 24) ^ uint64_t(a.timeout) ^ (uint64_t(n) << 56));
+        if (E.trace_log) E.trace_log->push_back((uint64_t(a.tid) << 48) ^ (uint64_t(t->st) << 40) ^ (uint64_t(a.timeout) << 8) ^ uint64_t(n));
         if (g_replay_print) fprintf(stderr, "  step %llu: %s T%d %s obj=%d (%d alternatives, choice %d)\n", (unsigned long long)E.transitions, a.timeout ? "timeout" : "run", a.tid, stname(t->st), t->obj, n, c);
         if (a.timeout) {
             ++E.timeouts;
@@ -544,7 +550,7 @@ int pop_prefix(uint8_t* out) {                      // caller holds the lock; -1
 struct RunResult {
     std::vector<std::pair<std::string, std::string>> fails;
     std::string outcome;
-    std::vector<uint64_t> state_hashes;
+    std::vector<uint64_t> state_hashes, trace_log;
     uint64_t trace_hash = 0, transitions = 0, timeouts = 0;
     int npts = 0, cost = 0;
 };
@@ -559,6 +565,7 @@ void run_once(const std::function<void()>& body, const uint8_t* prefix, int pref
     E.unlock_points = opt.unlock_points; E.delay_bounded = opt.delay_bounded;
     E.fails = &rr.fails; E.outcome = &rr.outcome;
     E.state_hashes = want_states ? &rr.state_hashes : nullptr;
+    E.trace_log = &rr.trace_log;
     memset(&E.th[0], 0, sizeof(Th));
     E.th[0].id = 0; E.th[0].st = S_RUNNING; E.th[0].obj = -1; E.th[0].cond = -1;
     g_rr = &rr;
@@ -693,8 +700,18 @@ void worker_loop(const WorkerCtx& w) {
             RunResult r2;
             std::vector<uint8_t> full(E.choices, E.choices + rr.npts);
             run_once(*w.body, full.data(), rr.npts, *w.opt, r2, false);
-            if (r2.trace_hash != rr.trace_hash || r2.outcome != rr.outcome || r2.npts != rr.npts)
-                fatal("harness/nondeterministic-replay", "same choices gave a different trace/outcome: '" + rr.outcome + "' vs '" + r2.outcome + "'");
+            if (r2.trace_hash != rr.trace_hash || r2.outcome != rr.outcome || r2.npts != rr.npts) {
+                size_t k = 0;
+                while (k < rr.trace_log.size() && k < r2.trace_log.size() && rr.trace_log[k] == r2.trace_log[k]) ++k;
+                auto step = [](const std::vector<uint64_t>& v, size_t i) {
+                    if (i >= v.size()) return std::string("(end)");
+                    const uint64_t x = v[i]; char b[128];
+                    snprintf(b, sizeof b, "T%d %s%s of %d alternatives", int(x >> 48), stname(int((x >> 40) & 0xff)), ((x >> 8) & 1) ? " timeout" : "", int(x & 0xff));
+                    return std::string(b);
+                };
+                fatal("harness/nondeterministic-replay", "same choices gave a different trace/outcome: '" + rr.outcome + "' vs '" + r2.outcome + "'; " + std::to_string(rr.npts) + " vs " + std::to_string(r2.npts) +
+                      " decision points, " + std::to_string(rr.trace_log.size()) + " vs " + std::to_string(r2.trace_log.size()) + " steps, first difference at step " + std::to_string(k) + ": " + step(rr.trace_log, k) + " vs " + step(r2.trace_log, k));
+            }
             __sync_fetch_and_add(&SH->replays_checked, 1);   // (the replay left identical points/choices in E)
         }
         g_slot->running = 0;
